@@ -1978,6 +1978,58 @@ fn c13_save48_keeps_byte_below_sp() {
     kani::cover!(sv.wv != (sv.pc >> 8) as u8, "the byte below SP differs from what the file holds there");
 }
 
+/// one 48K save with the stack inside display memory: SP literal, the two bytes below it symbolic
+fn save_display_case(sp: u16, bitmap: bool, y: usize, col: usize) {
+    use crate::zx::video::screen::verif_hooks as sh;
+    let mut s = mk_emulator(ZXMachine::Sinclair48K, CTX);
+    let pc: u16 = kani::any();
+    cpu(&mut s).regs.set_pc(pc);
+    cpu(&mut s).regs.set_sp(sp);
+    let (b0, b1): (u8, u8) = (kani::any(), kani::any());
+    // the picture memory as the program left it: RAM and the renderer's copy agree (written through the
+    // same path CPU writes take)
+    controller(&mut s).write_internal(sp.wrapping_sub(2), b0);
+    controller(&mut s).write_internal(sp.wrapping_sub(1), b1);
+    let mut rec = SparseRecorder::new(27);
+    let r = save(&mut s, &mut rec);
+    kani::assert(r.is_ok(), "c08.save.ok");
+    kani::assert(s.peek(sp.wrapping_sub(2)) == b0 && s.peek(sp.wrapping_sub(1)) == b1, "c08.save.screen_memory_unchanged");
+    let c = controller(&mut s);
+    let (d0, d1) = if bitmap {
+        (sh::shadow_bitmap(&c.screen, 0, y, col), sh::shadow_bitmap(&c.screen, 0, y, col + 1))
+    } else {
+        (sh::shadow_attr(&c.screen, 0, y, col), sh::shadow_attr(&c.screen, 0, y, col + 1))
+    };
+    kani::assert(d0 == b0 && d1 == b1, "c08.save.displayed_cells_follow_screen_memory");
+    kani::cover!(b0 != pc as u8 && b1 != (pc >> 8) as u8, "bytes below SP differ from the PC bytes the saver parks there");
+}
+
+// @harness
+// @prop C08 C13
+// @tier quick
+// @timeout 600
+// @fn sna::save; ScopedSnapshotState::enter; ScopedSnapshotState::drop; ZXController::write_internal; ZXScreen::update
+// @sym PC, the two bytes below SP; SP in the bitmap (0x4102), in the attributes (0x5902), at the end of the bitmap (0x5800)
+// @assert saving a 48K SNA while the stack lies in display memory (the saver parks PC there for the duration of the save) leaves ULA-visible memory unchanged AND the cells the renderer will draw equal to it - the picture stays the decode of screen memory after a save
+// @bound 1 save, 48K, three literal stack positions
+// @stub ZXController::refresh_memory_dependent_devices -> no-op (save does not call it; load does); ZXScreen::process_clocks -> no-op
+// @replay solver-only
+#[kani::proof]
+#[kani::unwind(29)]
+#[kani::stub(ZXController::refresh_memory_dependent_devices, noop_refresh)]
+#[kani::stub(ZXScreen::process_clocks, noop_screen_clocks)]
+fn c08_sna_save_keeps_displayed_cells() {
+    let sel: u8 = kani::any();
+    match sel {
+        // 0x4100/0x4101: bitmap offset 0x100 = pixel row 1, columns 0 and 1
+        0 => save_display_case(0x4102, true, 1, 0),
+        // 0x5900/0x5901: attribute offset 0x100 = character row 8, columns 0 and 1
+        1 => save_display_case(0x5902, false, 8, 0),
+        // 0x57FE/0x57FF: last two bitmap bytes = pixel row 191, columns 30 and 31
+        _ => save_display_case(0x5800, true, 191, 30),
+    }
+}
+
 // @harness
 // @prop C13
 // @tier quick
